@@ -826,9 +826,9 @@ def c12(chk, tier):
         # accepted NIST inputs of C09's generator re-serialise canonically (shared recipe set, fewer members)
         def on2(v):
             last = v["last"]
-            if last["kind"] == "ok" or last["err"] == "IncorrectInputLength":
-                ses.replay([last], exact_tags=ALL, label="canonical", sample=False)
-                chk.case(codec_key(last))
+            # every input: whatever is accepted must re-serialise to itself, wrong lengths must carry (expected, given)
+            ses.replay([last], exact_tags=ALL, label="canonical", sample=False)
+            chk.case(codec_key(last))
         generate(chk, "MC_Codec", "MC_Codec.cfg", "gen_nist_ok", codec_over("nist", KemSet="{16, 17, 18}", NPer=10 if thorough else 1, AllTags=False),
                  invariants=None, on_value=on2, workers=2)
     finally:
@@ -953,6 +953,11 @@ def c13(chk, tier):
                               Vals='"long"', Shape='"all"' if thorough else '"one"', Perturb='{"none", "info"}', Emit=True,
                               MaxSeals=1, MaxOpens=1, MaxExports=1, FormMenu='{"alloc", "detached"}')
             setup_transitions(chk, ses, "gen_long_%d" % kem, over, casekey=tr_key("c13"), compare_bytes=False)
+        # setup can only fail with EncapError (sender) / DecapError (receiver): the X25519 keys that make it fail
+        over = setup_over(KemSet="{32}", KdfSet=kset([rot([1, 2, 3], 1)]), AeadSet=kset([rot([1, 2, 3], 2)]),
+                          Vals='"leaf"', Shape='"one"', BadPkR='"all"', Perturb='{"none", "encsmall", "pkssmall"}', Emit=True)
+        setup_transitions(chk, ses, "gen_setup_errors", over, casekey=tr_key("c13e"), compare_bytes=False,
+                          want=lambda last, tr: last["op"] in ("setup_s", "setup_r"))
         traces(chk, "session", 6 if thorough else 1, "random sessions with long inputs", nsessions=4, nsteps=20, long=True,
                mismatch=0.3)
         traces(chk, "seq", 4 if thorough else 1, "random deliveries", nsteps=300)
@@ -1226,7 +1231,7 @@ def c18(chk, tier):
     if not c18_static(chk):
         return
     from .execproc import Executor
-    combos = [(32, 1, 1, 0), (16, 1, 3, 3), (17, 2, 2, 2), (18, 3, 1, 1), (32, 3, 65535, 1), (16, 2, 2, 0)]
+    combos = [(32, 1, 1, 3), (16, 1, 3, 2), (17, 2, 2, 3), (18, 3, 1, 1), (32, 3, 65535, 2), (16, 2, 2, 0)]
     if not thorough:
         combos = [combos[0], combos[1 + seed() % 5]]
     ses = Session(chk)
